@@ -76,11 +76,11 @@ Proof.
     apply orb_true_iff in Ba as [Ba|Ba]; [apply orb_true_iff in Ba as [Ba|Ba]|];
     (apply orb_true_iff in Bb as [Bb|Bb]; [apply orb_true_iff in Bb as [Bb|Bb]|]);
     apply str_eqb_eq in Ba; apply str_eqb_eq in Bb; subst; destruct o as [u [|] [|]]; reflexivity.
-  - rewrite (ren_other o b Bb). unfold wfs in Hb. rewrite Bb in Hb. cbn in Hb. apply negb_true_iff in Hb.
+  - rewrite (ren_other o b Bb). unfold wfs in Hb. rewrite Bb, orb_false_l in Hb. apply negb_true_iff in Hb.
     rewrite str_eqb_neq; [rewrite str_eqb_neq; [reflexivity|]|].
     + intro E. subst. apply base_is_container in Ba. congruence.
     + intro E. pose proof (ren_base_container o a Ba) as C. rewrite E in C. congruence.
-  - rewrite (ren_other o a Ba). unfold wfs in Ha. rewrite Ba in Ha. cbn in Ha. apply negb_true_iff in Ha.
+  - rewrite (ren_other o a Ba). unfold wfs in Ha. rewrite Ba, orb_false_l in Ha. apply negb_true_iff in Ha.
     rewrite str_eqb_neq; [rewrite str_eqb_neq; [reflexivity|]|].
     + intro E. subst. apply base_is_container in Bb. congruence.
     + intro E. pose proof (ren_base_container o b Bb) as C. rewrite <- E in C. congruence.
@@ -132,4 +132,362 @@ Proof.
   assert (wfs s_Any = true) as WA by reflexivity.
   assert (ren o s_Any = s_Any) as RA by reflexivity.
   rewrite <- RA at 1. apply ren_inj; assumption.
+Qed.
+
+(* ---- rho commutes with the union / None surgery -------------------------------------------------- *)
+Lemma chain_rho o h : chain (rho o h) = map (rho o) (chain h).
+Proof.
+  induction h as [s|l|hd args IH|alts IH|x IH| |] using hint_ind'; try reflexivity.
+  - cbn [rho chain]. induction IH as [|a alts Ha Hs IHl]; [reflexivity|]. cbn [map flat_map]. rewrite map_app, Ha, IHl. reflexivity.
+  - cbn [rho chain]. rewrite map_app, IH. reflexivity.
+Qed.
+
+Lemma of_parts_rho o l : of_parts (map (rho o) l) = rho o (of_parts l).
+Proof. destruct l as [|x [|y r]]; reflexivity. Qed.
+
+Lemma filter_nonnone_rho o l :
+  filter (fun x => negb (is_hnone x)) (map (rho o) l) = map (rho o) (filter (fun x => negb (is_hnone x)) l).
+Proof.
+  induction l as [|x l IH]; [reflexivity|]. cbn [map filter]. rewrite is_hnone_rho. destruct (negb (is_hnone x)); cbn [map]; rewrite IH; reflexivity.
+Qed.
+
+Lemma rn_op_rho o h : rn_op (rho o h) = rho o (rn_op h).
+Proof.
+  destruct h as [s|l|hd args|alts|x| |]; try reflexivity.
+  - change (rho o (HUnion alts)) with (HUnion (map (rho o) alts)). unfold rn_op.
+    change (HUnion (map (rho o) alts)) with (rho o (HUnion alts)). rewrite chain_rho, filter_nonnone_rho, of_parts_rho. reflexivity.
+  - change (rho o (HOpt x)) with (HOpt (rho o x)). unfold rn_op.
+    change (HOpt (rho o x)) with (rho o (HOpt x)). rewrite chain_rho, filter_nonnone_rho, of_parts_rho. reflexivity.
+Qed.
+
+Definition ty_member (x : hint) : list hint :=
+  if is_hnone x then [] else match x with HUnion _ => [rn_ty x] | _ => [x] end.
+
+Lemma rn_ty_union l : rn_ty (HUnion l) = of_parts (flat_map ty_member l).
+Proof. reflexivity. Qed.
+
+Lemma rn_ty_rho o h : rn_ty (rho o h) = rho o (rn_ty h).
+Proof.
+  induction h as [s|l|hd args IH|alts IH|x IH| |] using hint_ind'; try reflexivity.
+  change (rho o (HUnion alts)) with (HUnion (map (rho o) alts)). rewrite !rn_ty_union, <- of_parts_rho. f_equal.
+  induction IH as [|a alts Ha Hs IHl]; [reflexivity|]. cbn [map flat_map]. rewrite map_app, IHl. f_equal.
+  unfold ty_member. rewrite is_hnone_rho. destruct (is_hnone a); [reflexivity|].
+  destruct a as [s|l|hd args|alts0|x| |]; try reflexivity.
+  change (rho o (HUnion alts0)) with (HUnion (map (rho o) alts0)). cbn [map]. f_equal.
+  change (HUnion (map (rho o) alts0)) with (rho o (HUnion alts0)). exact Ha.
+Qed.
+
+Lemma rn_rho o h : rn o (rho o h) = rho o (rn (dflt o) h).
+Proof. unfold rn, dflt. cbn [uo]. destruct (uo o); [apply rn_op_rho | apply rn_ty_rho]. Qed.
+
+Lemma make_optional_rho o h : make_optional o (rho o h) = rho o (make_optional (dflt o) h).
+Proof.
+  unfold make_optional. rewrite rn_rho, is_hempty_rho, is_hnone_rho.
+  destruct (is_hempty (rn (dflt o) h) || is_hnone (rn (dflt o) h)); reflexivity.
+Qed.
+
+Lemma ren_List o : ren o s_List = list_name o. Proof. reflexivity. Qed.
+Lemma ren_Set o : ren o s_Set = set_name o. Proof. reflexivity. Qed.
+Lemma ren_Dict o : ren o s_Dict = dict_name o. Proof. reflexivity. Qed.
+
+Lemma ren_clean o s : container_name s = false -> ren o s = s.
+Proof.
+  intro H. apply ren_other. destruct (base_name s) eqn:B; [|reflexivity]. apply base_is_container in B. congruence.
+Qed.
+
+Lemma wrap_rho o c base : match c with CDict (Some k) => container_name k = false | _ => True end ->
+  wrap o c (rho o base) = rho o (wrap (dflt o) c base).
+Proof.
+  intro K. destruct c as [| | |key]; cbn [wrap]; rewrite ?is_hempty_rho.
+  - reflexivity.
+  - destruct (is_hempty base); reflexivity.
+  - destruct (is_hempty base); reflexivity.
+  - destruct key as [k|]; destruct (is_hempty base); cbn [rho map]; rewrite ?(ren_clean o k K); reflexivity.
+Qed.
+
+Lemma flat_union_rho o alts :
+  flat_map (fun a => match a with HUnion l => l | _ => [a] end) (map (rho o) alts)
+  = map (rho o) (flat_map (fun a => match a with HUnion l => l | _ => [a] end) alts).
+Proof.
+  induction alts as [|a alts IH]; [reflexivity|]. cbn [map flat_map]. rewrite map_app, IH. f_equal. destruct a; reflexivity.
+Qed.
+
+Lemma mk_union_rho o alts : mk_union o (map (rho o) alts) = rho o (mk_union (dflt o) alts).
+Proof.
+  unfold mk_union, dflt. cbn [uo]. destruct alts as [|x [|y r]]; cbn [map].
+  - destruct (uo o); reflexivity.
+  - reflexivity.
+  - destruct (uo o); [|reflexivity]. change (rho o x :: rho o y :: map (rho o) r) with (map (rho o) (x :: y :: r)).
+    rewrite flat_union_rho. reflexivity.
+Qed.
+
+(* ---- well-formedness is preserved ------------------------------------------------------------------ *)
+Lemma wf_chain h : wf h = true -> forallb wf (chain h) = true.
+Proof.
+  induction h as [s|l|hd args IH|alts IH|x IH| |] using hint_ind'; intro W; cbn [chain forallb]; rewrite ?W; try reflexivity.
+  - cbn [wf] in W. induction IH as [|a alts Ha Hs IHl]; [reflexivity|]. cbn [forallb] in W. apply andb_true_iff in W as [Wa Ws].
+    cbn [flat_map]. rewrite forallb_app, (Ha Wa), (IHl Ws). reflexivity.
+  - cbn [wf] in W. rewrite forallb_app, (IH W). reflexivity.
+Qed.
+
+Lemma wf_of_parts l : forallb wf l = true -> wf (of_parts l) = true.
+Proof.
+  destruct l as [|x [|y r]]; intro W; [reflexivity| |exact W]. cbn [forallb] in W. rewrite andb_true_r in W. exact W.
+Qed.
+
+Lemma wf_filter (f : hint -> bool) l : forallb wf l = true -> forallb wf (filter f l) = true.
+Proof.
+  induction l as [|x l IH]; intro W; [reflexivity|]. cbn [forallb] in W. apply andb_true_iff in W as [Wx Wl].
+  cbn [filter]. destruct (f x); cbn [forallb]; rewrite ?Wx, (IH Wl); reflexivity.
+Qed.
+
+Lemma wf_rn_op h : wf h = true -> wf (rn_op h) = true.
+Proof.
+  intro W. destruct h; try exact W; unfold rn_op; apply wf_of_parts, wf_filter, wf_chain; exact W.
+Qed.
+
+Lemma wf_rn_ty h : wf h = true -> wf (rn_ty h) = true.
+Proof.
+  induction h as [s|l|hd args IH|alts IH|x IH| |] using hint_ind'; intro W; try exact W.
+  rewrite rn_ty_union. apply wf_of_parts. cbn [wf] in W.
+  induction IH as [|a alts Ha Hs IHl]; [reflexivity|]. cbn [forallb] in W. apply andb_true_iff in W as [Wa Ws].
+  cbn [flat_map]. rewrite forallb_app, (IHl Ws), andb_true_r. unfold ty_member. destruct (is_hnone a); [reflexivity|].
+  destruct a; cbn [forallb]; rewrite ?andb_true_r; try exact Wa. apply Ha. exact Wa.
+Qed.
+
+Lemma wf_rn o h : wf h = true -> wf (rn o h) = true.
+Proof. unfold rn. destruct (uo o); [apply wf_rn_op | apply wf_rn_ty]. Qed.
+
+Lemma wf_make_optional o h : wf h = true -> wf (make_optional o h) = true.
+Proof.
+  intro W. unfold make_optional. destruct (is_hempty (rn o h) || is_hnone (rn o h)); [reflexivity|]. cbn [wf]. apply wf_rn. exact W.
+Qed.
+
+Lemma wf_wrap o c base : sc o = false -> gc o = false ->
+  match c with CDict (Some k) => container_name k = false | _ => True end -> wf base = true -> wf (wrap o c base) = true.
+Proof.
+  intros S G K W. destruct c as [| | |key]; cbn [wrap]; unfold list_name, set_name, dict_name; rewrite ?S, ?G.
+  - exact W.
+  - destruct (is_hempty base); cbn [wf forallb]; rewrite ?W; reflexivity.
+  - destruct (is_hempty base); cbn [wf forallb]; rewrite ?W; reflexivity.
+  - destruct key as [k|]; destruct (is_hempty base); cbn [wf forallb]; unfold wfs; rewrite ?K, ?W, ?orb_true_r; reflexivity.
+Qed.
+
+Lemma wf_mk_union o alts : forallb wf alts = true -> wf (mk_union o alts) = true.
+Proof.
+  intro W. unfold mk_union. destruct alts as [|x [|y r]].
+  - destruct (uo o); reflexivity.
+  - cbn [forallb] in W. rewrite andb_true_r in W. exact W.
+  - destruct (uo o); [|exact W]. cbn [wf]. remember (x :: y :: r) as l eqn:E. clear E.
+    induction l as [|a l IH]; [reflexivity|]. cbn [forallb] in W. apply andb_true_iff in W as [Wa Wl].
+    cbn [flat_map]. rewrite forallb_app, (IH Wl), andb_true_r. destruct a; cbn [forallb]; rewrite ?andb_true_r; exact Wa.
+Qed.
+
+(* ---- the union branch ------------------------------------------------------------------------------ *)
+Lemma union_fold_rho o hs : forall acc opt, forallb wf hs = true -> forallb wf acc = true ->
+  union_fold o (map (rho o) hs) (map (rho o) acc) opt
+  = (map (rho o) (fst (union_fold (dflt o) hs acc opt)), snd (union_fold (dflt o) hs acc opt))
+  /\ forallb wf (fst (union_fold (dflt o) hs acc opt)) = true.
+Proof.
+  induction hs as [|h hs IH]; intros acc opt Whs Wacc.
+  - cbn [union_fold map fst snd]. split; [reflexivity | exact Wacc].
+  - cbn [forallb] in Whs. apply andb_true_iff in Whs as [Wh Whs].
+    cbn [union_fold map]. rewrite (mem_hint_rho o h acc Wh Wacc). destruct (mem_hint h acc); [apply IH; assumption|].
+    rewrite is_hnone_rho. destruct (is_hnone h); [apply IH; assumption|].
+    rewrite rn_rho. pose proof (wf_rn (dflt o) h Wh) as Wr.
+    rewrite (hint_eqb_rho o (rn (dflt o) h) h Wr Wh).
+    replace (map (rho o) acc ++ [rho o (rn (dflt o) h)]) with (map (rho o) (acc ++ [rn (dflt o) h])) by (rewrite map_app; reflexivity).
+    apply IH; [exact Whs|]. rewrite forallb_app, Wacc. cbn [forallb]. rewrite Wr. reflexivity.
+Qed.
+
+(* ---- type_hint -------------------------------------------------------------------------------------- *)
+Definition base_of (o : spell) (typ : option str) (children : list dt) (lits : list lit) (ref : option str) (opt : bool) : hint * bool :=
+  match typ with
+  | Some s => (HAtom s, opt)
+  | None =>
+      match children with
+      | _ :: _ :: _ =>
+          let '(alts, o') := union_fold o (map (fun ch => fst (th o ch)) children) [] false in
+          (mk_union o alts, opt || o')
+      | [ch] => (fst (th o ch), opt)
+      | [] => match lits with
+              | _ :: _ => (HLit lits, opt)
+              | [] => match ref with Some r => (HAtom r, opt) | None => (HEmpty, opt) end
+              end
+      end
+  end.
+
+Lemma th_unfold o typ children lits ref opt c :
+  th o (DT typ children lits ref opt c) =
+  let '(base, opt1) := base_of o typ children lits ref opt in
+  let w := wrap o c base in
+  if opt1 && negb (is_any w) then (make_optional o w, opt1) else (w, opt1).
+Proof. reflexivity. Qed.
+
+Lemma wfs_clean s : container_name s = false -> wfs s = true.
+Proof. intro H. unfold wfs. rewrite H. apply orb_true_r. Qed.
+
+Definition related (o : spell) (t : dt) : Prop :=
+  wf (fst (th (dflt o) t)) = true /\ th o t = (rho o (fst (th (dflt o) t)), snd (th (dflt o) t)).
+
+Definition multi (o : spell) (cs : list dt) (opt : bool) : hint * bool :=
+  let '(alts, o') := union_fold o (map (fun ch => fst (th o ch)) cs) [] false in (mk_union o alts, opt || o').
+
+Lemma multi_related o cs opt : Forall (related o) cs ->
+  wf (fst (multi (dflt o) cs opt)) = true /\ multi o cs opt = (rho o (fst (multi (dflt o) cs opt)), snd (multi (dflt o) cs opt)).
+Proof.
+  intro IH. unfold multi.
+  assert (map (fun ch => fst (th o ch)) cs = map (rho o) (map (fun ch => fst (th (dflt o) ch)) cs)) as M.
+  { rewrite map_map. apply map_ext_in. intros ch Hch. rewrite Forall_forall in IH. destruct (IH ch Hch) as [_ E]. rewrite E. reflexivity. }
+  assert (forallb wf (map (fun ch => fst (th (dflt o) ch)) cs) = true) as Wcs.
+  { apply forallb_forall. intros h Hh. apply in_map_iff in Hh as [ch [<- Hch]]. rewrite Forall_forall in IH. destruct (IH ch Hch) as [W _]. exact W. }
+  rewrite M.
+  destruct (union_fold_rho o (map (fun ch => fst (th (dflt o) ch)) cs) [] false Wcs eq_refl) as [U WU].
+  cbn [map] in U. rewrite U.
+  destruct (union_fold (dflt o) (map (fun ch => fst (th (dflt o) ch)) cs) [] false) as [alts o'] eqn:UF.
+  cbn [fst snd] in *. split; [apply wf_mk_union; exact WU | rewrite mk_union_rho; reflexivity].
+Qed.
+
+Lemma base_of_related o typ children lits ref opt :
+  match typ with Some s => container_name s = false | None => True end ->
+  match ref with Some s => container_name s = false | None => True end ->
+  Forall (related o) children ->
+  wf (fst (base_of (dflt o) typ children lits ref opt)) = true
+  /\ base_of o typ children lits ref opt
+     = (rho o (fst (base_of (dflt o) typ children lits ref opt)), snd (base_of (dflt o) typ children lits ref opt)).
+Proof.
+  intros Ct Cr IH. unfold base_of. destruct typ as [s|].
+  - cbn [fst snd rho wf]. split; [apply wfs_clean; exact Ct | rewrite (ren_clean o s Ct); reflexivity].
+  - destruct children as [|c1 [|c2 r]].
+    + destruct lits as [|l0 lr]; cbn [fst snd rho wf]; [|split; reflexivity].
+      destruct ref as [r0|]; cbn [fst snd rho wf]; [|split; reflexivity].
+      split; [apply wfs_clean; exact Cr | rewrite (ren_clean o r0 Cr); reflexivity].
+    + inversion IH as [|? ? [W E] _]; subst. cbn [fst snd]. split; [exact W | rewrite E; reflexivity].
+    + apply (multi_related o (c1 :: c2 :: r) opt IH).
+Qed.
+
+Lemma dflt_sc o : sc (dflt o) = false. Proof. reflexivity. Qed.
+Lemma dflt_gc o : gc (dflt o) = false. Proof. reflexivity. Qed.
+
+Theorem th_related o : forall t, clean_dt t = true -> related o t.
+Proof.
+  induction t as [typ children lits ref opt c IH] using dt_ind'. intro C.
+  cbn [clean_dt] in C. apply andb_true_iff in C as [C Cch]. apply andb_true_iff in C as [C Ck].
+  apply andb_true_iff in C as [Ct Cr].
+  assert (K : match c with CDict (Some k) => container_name k = false | _ => True end).
+  { destruct c as [| | |[k|]]; auto. apply negb_true_iff. exact Ck. }
+  assert (Kt : match typ with Some s => container_name s = false | None => True end) by (destruct typ; [apply negb_true_iff; exact Ct | exact I]).
+  assert (Kr : match ref with Some s => container_name s = false | None => True end) by (destruct ref; [apply negb_true_iff; exact Cr | exact I]).
+  assert (IHc : Forall (related o) children).
+  { apply Forall_forall. intros ch Hch. rewrite Forall_forall in IH. apply IH; [exact Hch|]. eapply forallb_forall in Cch; eauto. }
+  destruct (base_of_related o typ children lits ref opt Kt Kr IHc) as [WB EB].
+  unfold related. rewrite !th_unfold. rewrite EB.
+  destruct (base_of (dflt o) typ children lits ref opt) as [base opt1]. cbn [fst snd] in *.
+  cbv zeta. rewrite (wrap_rho o c base K).
+  pose proof (wf_wrap (dflt o) c base (dflt_sc o) (dflt_gc o) K WB) as WW.
+  rewrite (is_any_rho o _ WW).
+  destruct (opt1 && negb (is_any (wrap (dflt o) c base))); cbn [fst snd].
+  - split; [apply wf_make_optional; exact WW | rewrite make_optional_rho; reflexivity].
+  - split; [exact WW | reflexivity].
+Qed.
+
+(* ---- the meaning ------------------------------------------------------------------------------------- *)
+Lemma canon_head_ren o s : wfs s = true -> canon_head o (ren o s) = canon_head (dflt o) s.
+Proof.
+  intro W. destruct (base_name s) eqn:B.
+  - unfold base_name in B. apply orb_true_iff in B as [B|B]; [apply orb_true_iff in B as [B|B]|]; apply str_eqb_eq in B; subst;
+      destruct o as [u [|] [|]]; reflexivity.
+  - rewrite (ren_other o s B). unfold wfs in W. rewrite B, orb_false_l in W. apply negb_true_iff in W.
+    unfold canon_head.
+    assert (forall n, container_name n = true -> str_eqb s n = false) as X.
+    { intros n Hn. apply str_eqb_neq. intro E. subst. congruence. }
+    rewrite !X; [reflexivity| | | | | |]; unfold list_name, set_name, dict_name, dflt; cbn [sc gc]; try reflexivity; destruct (gc o), (sc o); reflexivity.
+Qed.
+
+Lemma nf_rho o h : wf h = true -> nf o (rho o h) = nf (dflt o) h.
+Proof.
+  induction h as [s|l|hd args IH|alts IH|x IH| |] using hint_ind'; intro W; try reflexivity.
+  - cbn [rho nf wf] in *. rewrite canon_head_ren; [reflexivity | exact W].
+  - cbn [wf] in W. apply andb_true_iff in W as [Wh Wa]. cbn [rho nf]. rewrite (canon_head_ren o hd Wh). f_equal.
+    rewrite map_map. apply map_ext_in. intros a Ha. rewrite Forall_forall in IH. apply IH; [exact Ha|]. eapply forallb_forall in Wa; eauto.
+  - cbn [wf] in W. cbn [rho nf]. f_equal.
+    induction IH as [|a alts Ha Hs IHl]; [reflexivity|]. cbn [forallb] in W. apply andb_true_iff in W as [Wa Ws].
+    cbn [map flat_map]. rewrite (Ha Wa), (IHl Ws). reflexivity.
+  - cbn [wf] in W. cbn [rho nf]. rewrite (IH W). reflexivity.
+Qed.
+
+(* the container spelling never changes what an annotation means: for every tree whose own names are not container names *)
+Theorem meaning_container_spelling o t : clean_dt t = true -> meaning o t = meaning (dflt o) t.
+Proof.
+  intro C. destruct (th_related o t C) as [W E]. unfold meaning, type_hint. rewrite E. cbn [fst]. apply nf_rho. exact W.
+Qed.
+
+Corollary meaning_same_union_style o1 o2 t : clean_dt t = true -> uo o1 = uo o2 -> meaning o1 t = meaning o2 t.
+Proof.
+  intros C U. rewrite (meaning_container_spelling o1 t C), (meaning_container_spelling o2 t C). unfold dflt. rewrite U. reflexivity.
+Qed.
+(* ---- making a type optional keeps every non-None alternative, in both union styles ------------------- *)
+Fixpoint alts (h : hint) : list hint :=
+  match h with
+  | HOpt x => alts x
+  | HUnion l => flat_map alts l
+  | HNone | HEmpty => []
+  | _ => [h]
+  end.
+
+Lemma alts_of_parts l : alts (of_parts l) = flat_map alts l.
+Proof. destruct l as [|x [|y r]]; cbn [of_parts alts flat_map]; rewrite ?app_nil_r; reflexivity. Qed.
+
+Lemma alts_chain h : flat_map alts (chain h) = alts h.
+Proof.
+  induction h as [s|l|hd args IH|alts0 IH|x IH| |] using hint_ind'; cbn [chain alts flat_map]; rewrite ?app_nil_r; try reflexivity.
+  - induction IH as [|a l Ha Hs IHl]; [reflexivity|]. cbn [flat_map]. rewrite flat_map_app, Ha, IHl. reflexivity.
+  - rewrite flat_map_app, IH. cbn [flat_map alts]. rewrite app_nil_r. reflexivity.
+Qed.
+
+Lemma alts_filter_nonnone l : flat_map alts (filter (fun x => negb (is_hnone x)) l) = flat_map alts l.
+Proof.
+  induction l as [|x l IH]; [reflexivity|]. cbn [filter flat_map]. destruct x; cbn [is_hnone negb flat_map]; rewrite IH; reflexivity.
+Qed.
+
+Lemma alts_rn_op h : alts (rn_op h) = alts h.
+Proof.
+  destruct h as [s|l|hd args|alts0|x| |]; try reflexivity; unfold rn_op; rewrite alts_of_parts, alts_filter_nonnone, alts_chain; reflexivity.
+Qed.
+
+Lemma alts_rn_ty h : alts (rn_ty h) = alts h.
+Proof.
+  induction h as [s|l|hd args IH|alts0 IH|x IH| |] using hint_ind'; try reflexivity.
+  rewrite rn_ty_union, alts_of_parts. cbn [alts].
+  induction IH as [|a l Ha Hs IHl]; [reflexivity|]. cbn [flat_map]. rewrite flat_map_app, IHl. f_equal.
+  unfold ty_member. destruct a as [s|l0|hd args|alts1|x| |]; cbn [is_hnone flat_map]; rewrite ?app_nil_r; try reflexivity. exact Ha.
+Qed.
+
+Theorem make_optional_keeps_alternatives o h : alts (make_optional o h) = alts h.
+Proof.
+  unfold make_optional.
+  assert (alts (rn o h) = alts h) as R by (unfold rn; destruct (uo o); [apply alts_rn_op | apply alts_rn_ty]).
+  destruct (rn o h) eqn:E; cbn [is_hempty is_hnone orb alts]; cbn [alts] in R; exact R.
+Qed.
+
+Lemma base_of_opt o typ children lits ref opt :
+  base_of o typ children lits ref opt
+  = (fst (base_of o typ children lits ref false), opt || snd (base_of o typ children lits ref false)).
+Proof.
+  unfold base_of. destruct typ as [s|]; [cbn [fst snd]; rewrite orb_false_r; reflexivity|].
+  destruct children as [|c1 [|c2 r]].
+  - destruct lits; [destruct ref|]; cbn [fst snd]; rewrite orb_false_r; reflexivity.
+  - cbn [fst snd]. rewrite orb_false_r. reflexivity.
+  - destruct (union_fold o (map (fun ch => fst (th o ch)) (c1 :: c2 :: r)) [] false) as [a o']. cbn [fst snd orb]. reflexivity.
+Qed.
+
+(* the optional flag of a node adds None and nothing else: the rendered hint of the node with and without the flag has
+   the same non-None alternatives, in the same order - for every tree and every spelling *)
+Theorem optional_flag_keeps_alternatives o typ children lits ref c :
+  alts (type_hint o (DT typ children lits ref true c)) = alts (type_hint o (DT typ children lits ref false c)).
+Proof.
+  unfold type_hint. rewrite !th_unfold. rewrite (base_of_opt o typ children lits ref true), (base_of_opt o typ children lits ref false).
+  destruct (base_of o typ children lits ref false) as [base o1]. cbn [fst snd orb]. cbv zeta.
+  destruct (is_any (wrap o c base)); cbn [negb andb fst]; [destruct o1; reflexivity|].
+  destruct o1; cbn [andb fst]; [reflexivity|]. apply make_optional_keeps_alternatives.
 Qed.
